@@ -461,7 +461,7 @@ class C15(Prop):
   driver = 'drv_c15'
   translators = [t_c15.run]
   case_timeout_s = 60
-  jobs_quick = 4
+  jobs_quick = 6
   jobs_thorough = 6
   rule = ('algorithm configuration drawn from {Sweeping, Random(seed), Random(), Deduping over them (default '
           'hash / index mod k, max_duplicates 1-3, max attempts 1-6, auto reward on/off), nested Deduping (one '
@@ -548,7 +548,7 @@ class C15(Prop):
   def gen_events(self, rng, n):
     """Runs as a tuning backend produces them: proposals by up to w parallel workers; feedback mostly in
     proposal order, sometimes out of order; the last in-flight proposals never fed back."""
-    style = rng.weighted([(3, 'sequential'), (4, 'window'), (3, 'shuffled')])
+    style = rng.weighted([(2, 'sequential'), (3, 'window'), (5, 'shuffled')])
     w = 1 if style == 'sequential' else rng.randint(2, 5)
     events, pending, np_ = [], [], 0
     while len(events) < n:
@@ -567,15 +567,19 @@ class C15(Prop):
   DIMS = [[3], [4], [5], [7], [2, 2], [3, 2], [2, 3], [2, 2, 2], [4, 3], [3, 3], [5, 4], [6, 4]]
 
   def generate(self, rng, tier):
-    n_cases = 150 if tier == 'quick' else 2500
+    n_cases = 100 if tier == 'quick' else 2000
     for _ in range(n_cases):
       dims = rng.choice(self.DIMS)
       size = 1
       for d in dims:
         size *= d
       algo = self.gen_algo(rng, size)
-      hi = 40 if tier == 'quick' else rng.choice([40, 40, 80])
-      n = rng.weighted([(1, rng.randint(0, 5)), (6, rng.randint(6, 16)), (2, rng.randint(17, hi))])
+      if tier == 'quick':
+        n = rng.weighted([(1, rng.randint(0, 5)), (6, rng.randint(6, 14)), (2, rng.randint(15, 30)),
+                          (1, rng.randint(31, 40))])
+      else:
+        n = rng.weighted([(1, rng.randint(0, 5)), (5, rng.randint(6, 16)), (3, rng.randint(17, 40)),
+                          (1, rng.randint(41, 80))])
       yield {'algo': algo, 'dims': dims, 'events': self.gen_events(rng, n), 'm': 3}
 
   def search_cases(self, rng, tier, broken):
@@ -648,9 +652,10 @@ class C15(Prop):
       h.append('in-flight-at-end')
     if 'cache' in last['live'] and innermost(last['live'])['np'] > last['live']['np']:
       h.append('duplicates-rejected')
-    if any(isinstance(x, dict) and x.get('auto') is not None for e in out['model']['ks'] for x in e['live_next']) \
-        or any(c15_auto(cfg) for _ in [0]) and any(e['live'].get('feedback_driven') for e in out['model']['ks'][:1]):
+    if c15_auto(cfg) and last['live'].get('feedback_driven'):
       h.append('auto-reward-enabled')
+      if any(isinstance(x, dict) and x.get('auto') is not None for e in out['model']['ks'] for x in e['live_next']):
+        h.append('auto-reward-issued')
     if cfg['kind'] == 'evo':
       h.append('evo-init:' + kind_name(cfg['init']) + ('/sized' if cfg['init_size'] is not None else '/exhaust'))
       h.append('evo-children:%d' % cfg['repro'][1])
